@@ -142,6 +142,66 @@ def check : Tm → Verdict
   | _ => .buildPanic "not a plan"
 
 -- ---------------------------------------------------------------------------------------------
+-- expressions the evaluator can evaluate
+-- ---------------------------------------------------------------------------------------------
+
+/-- Heads of plan nodes (a plan inside an expression is a subquery). -/
+def planHead : Hd → Bool
+  | .filter | .order | .limit | .topn | .empty | .join | .hashjoin | .mergejoin | .apply | .scan | .values
+  | .proj | .agg | .window | .hashagg | .sortagg | .insert | .delete | .copyTo | .analyze | .explain
+  | .indexScan => true
+  | _ => false
+
+/-- Heads `Evaluator::eval` has no arm for (`panic!("can not evaluate expression")`): the subquery
+forms `exists`, `max1row`, and any plan (the argument of `in` / `exists` / `max1row`, an `apply`). -/
+def subqueryHead (h : Hd) : Bool := h == .exists_ || h == .max1row || planHead h
+
+mutual
+  /-- The expression can be evaluated on rows of the schema `sch`: a sub-expression that is an
+  entry of the schema is a column index (not looked into, as in `resolve`), anything else must not
+  be a subquery form. -/
+  def evalOk (sch : List Tm) : Tm → Bool
+    | .col _ _ => true
+    | .leaf _ => true
+    | .node h xs => sch.contains (.node h xs) || (!subqueryHead h && evalOkList sch xs)
+  def evalOkList (sch : List Tm) : List Tm → Bool
+    | [] => true
+    | x :: xs => evalOk sch x && evalOkList sch xs
+end
+
+/-- Which expression of a node is evaluated on rows of which schema: the builder's resolution
+obligations (`Gen/BuilderArms.lean`) — for the join builders the ones of the executor built for
+the join type — and the scan's pushed-down filter on the scanned columns. -/
+def nodeObligations : Tm → List (List Tm × Tm)
+  | .node .hashjoin [t, cond, lk, rk, l, r] =>
+    if isSemiAnti t then hashSemiJoinObligations [t, cond, lk, rk, l, r] else hashJoinObligations [t, cond, lk, rk, l, r]
+  | .node .mergejoin args => mergeJoinObligations args
+  | .node .scan [_, cols, f] => [(listItems cols, f)]
+  | n => resolveObligations n
+
+def obligationsEvaluable : List (List Tm × Tm) → Bool
+  | [] => true
+  | (sch, e) :: rest => evalOk sch e && obligationsEvaluable rest
+
+mutual
+  /-- Every expression of every operator of the plan can be evaluated. -/
+  def evalCheck : Tm → Bool
+    | .col _ _ => true
+    | .leaf _ => true
+    | .node h xs => if planHead h then obligationsEvaluable (nodeObligations (.node h xs)) && evalCheckList xs else true
+  def evalCheckList : List Tm → Bool
+    | [] => true
+    | x :: xs => evalCheck x && evalCheckList xs
+end
+
+/-- The builder's verdict, then the evaluator's: a plan the builder accepts whose expressions still
+hold a subquery form fails inside the operator (`operator panicked: can not evaluate expression`). -/
+def verdict (p : Tm) : Verdict :=
+  match check p with
+  | .ok => if evalCheck p then .ok else .runtimeTodo "an expression of the plan is not evaluable (a subquery form is left in it)"
+  | v => v
+
+-- ---------------------------------------------------------------------------------------------
 -- apply_proj (rules/plan.rs) for `pushdown-proj-order`
 -- ---------------------------------------------------------------------------------------------
 
@@ -226,6 +286,7 @@ def hdOfString (s : String) : Hd :=
   else if s == "ref" then .ref else if s == "insert" then .insert else if s == "delete" then .delete
   else if s == "copy_to" then .copyTo else if s == "analyze" then .analyze else if s == "explain" then .explain
   else if s == "index_scan" then .indexScan else if s == "exists" then .exists_ else if s == "in" then .in_
+  else if s == "max1row" then .max1row
   else .other (s.hash.toNat)
 
 def natOfDigits (s : String) : Option Nat := if !s.isEmpty && s.all Char.isDigit then s.toNat? else none
